@@ -500,6 +500,9 @@ class Check(PropertyCheck):
                 "LLBuild.BSAttrs.C09_definition_equal_signature_equal", "LLBuild.BSAttrs.C09_scalar_args_same_command",
                 "LLBuild.BSAttrs.C09_split_scalars_same_command", "LLBuild.BSAttrs.C09_working_directory_same_command",
                 "LLBuild.BSAttrs.C09_boolean_values_that_load",
+                # outputs that no longer match what the command produced (generated chain of ExternalCommand::isResultValid)
+                "LLBuild.BSAttrs.C09_result_valid_iff", "LLBuild.BSAttrs.C09_output_change_invalidates",
+                "LLBuild.BSAttrs.C09_matching_outputs_keep_result", "LLBuild.BSAttrs.C09_result_valid_tools",
                 # history half, on the abstract engine (tie to BuildEngine.cpp: the engine checks C01/C02)
                 "LLBuild.Engine.C02_null_build_after_build", "LLBuild.Engine.C09_changed_definition_reruns",
                 "LLBuild.Engine.C09_changed_definition_signature_differs", "LLBuild.Engine.C09_unchanged_definition_needs_other_reason"]
@@ -510,6 +513,7 @@ class Check(PropertyCheck):
         "list lengths below 2^64 (terms carry unbounded naturals)",
         "the null-build / re-run-iff half of C09 rests on the engine model (C02) and is not part of this check",
         "definition -> members: the configure* functions are interpreted from tables regenerated from the clang AST (x_bsattrs); a Definition is the ORDERED key list BuildFileImpl::parseCommandsMapping hands to the command (the YAML layer and its `inputs`/`outputs`/`description` dispatch are C17/C19's); nodes are implicit (no `nodes:` section entry overrides the virtual-by-name rule); the tool-level `control-enabled` of the shell tool is not set",
+        "outputs that no longer match: the per-output rule of ExternalCommand::isResultValid is an extracted decision chain (C09_result_valid_iff); FileInfo is abstract (equal / different / missing); mkdir, symlink and stale-file-removal have validity rules of their own (listed by C09_result_valid_tools, exercised by the older histories only); that an invalid result leads to re-execution is the engine's part (C02)",
         "ctx.error(..) without `return false` does not stop the load (BuildFileImpl::numErrors is never consulted): such definitions are `loaded` with diagnostics and the theorems cover them; the frontend builds them and exits 1",
         "hand models of StringRef::getAsInteger(10,int), llvm::sys::fs::make_absolute (POSIX, cwd beginning with one '/'), StringRef::split(KeepEmpty=false), createNode's virtual-name rule: tied by the c09configure correspondence only",
         "symlink commands have exactly one declared output (what configureOutputs accepts; without an `outputs:` key the real getSignature() reads outputs[0] out of bounds - model: no term)",
@@ -982,6 +986,188 @@ class Check(PropertyCheck):
         res.evaluations += 4
         res.extra["generated_hashed_attributes"] = gen
 
+    # ------------------------------------------------------------------ outputs, `is-mutated` nodes: histories through bin/llbuild
+    def mutated_configs(self, ctx):
+        """(outputs in declaration order, set of outputs declared `is-mutated: true`, optional = an output the producer does not create)"""
+        import itertools
+        rng = C.Rng(ctx.seed, "C09/mutated-outputs")
+        names = ["app", "app.map", "app.sym", "app.dbg"]
+        allc = []
+        for k in (2, 3, 4):
+            for order in itertools.permutations(names[:k]):
+                for r in range(0, k + 1):
+                    for mut in itertools.combinations(names[:k], r):
+                        allc.append((list(order), sorted(mut), None))
+        # always: the two orders of a mutated and a plain output, nothing mutated, everything mutated, a mutated node in the middle
+        fixed = [(["app", "app.map"], ["app"], None), (["app.map", "app"], ["app"], None), (["app", "app.map"], [], None),
+                 (["app", "app.map"], ["app", "app.map"], None), (["app.map", "app", "app.sym"], ["app"], None),
+                 (["app", "app.map", "app.sym", "app.dbg"], ["app.map"], None), (["app", "app.map", "app.sym"], ["app"], "app"),
+                 (["app", "app.map", "app.sym"], ["app"], "app.sym")]
+        if ctx.thorough:
+            return fixed + allc
+        picked = []
+        for _ in range(10):
+            c = rng.choice(allc)
+            c = (c[0], c[1], rng.choice(c[0]) if rng.chance(1, 5) else None)
+            if c not in picked and c not in fixed:
+                picked.append(c)
+        return fixed + picked
+
+    def run_mutated_config(self, exe, d, cfg, rng):
+        """One description, one chain of builds; returns (steps, failures).  The producer P writes every output (but `optional`) from
+        `src` and has a command-timestamp output; the mutator M is ordered after P through that node (the in-tree lit test
+        tests/BuildSystem/Build/mutable-outputs.llbuild) and appends to every `is-mutated` output in place."""
+        import subprocess
+        outs, mutated, optional = cfg
+        os.makedirs(d)
+        q = lambda x: '"%s"' % x
+
+        def manifest(extra=""):
+            y = "client:\n  name: basic\n\ntools: {}\n\ntargets:\n  \"\": [\"<M>\"]\n\nnodes:\n  \"<P.ts>\":\n    is-command-timestamp: true\n"
+            for o in mutated:
+                y += "  %s:\n    is-mutated: true\n" % q(o)
+            body = "echo P >> log.txt; " + "; ".join("(cat src; echo %s) > %s" % (o, o) for o in outs if o != optional) + extra
+            y += "\ncommands:\n  P:\n    tool: shell\n    inputs: [\"src\"]\n    outputs: [%s, \"<P.ts>\"]\n    args: [\"/bin/sh\", \"-c\", %s]\n" % (
+                ", ".join(q(o) for o in outs), q(body))
+            mbody = "echo M >> log.txt" + "".join("; test -f %s && echo stripped >> %s" % (o, o) for o in mutated if o != optional) + "; true"
+            y += "\n  M:\n    tool: shell\n    inputs: [\"<P.ts>\"]\n    outputs: [\"<M>\"]\n    args: [\"/bin/sh\", \"-c\", %s]\n" % q(mbody)
+            open(os.path.join(d, "build.llbuild"), "w").write(y)
+        open(os.path.join(d, "src"), "w").write("object code\n")
+        manifest()
+        steps, failures = [], []
+
+        missing_now = {optional} if optional else set()     # outputs the stored result records as missing
+
+        def model_line(edit_kind, edit_on):
+            """the scan as ExternalCommand::isResultValid sees it, for the Lean chain (driver mode c09valid)"""
+            f = []
+            for o in outs:
+                rec = "-" if o in missing_now else "1"
+                cur = rec
+                if o == edit_on:
+                    cur = "-" if edit_kind == "delete" else "2"
+                f.append("0%s:%s:%s" % ("1" if o in mutated else "0", rec, cur))
+            return "0 1 " + " ".join(f) + " 10:-:-"
+
+        def build(what, expect_p, edit=None):
+            log = os.path.join(d, "log.txt")
+            if os.path.exists(log):
+                os.remove(log)
+            p = subprocess.run([exe, "buildsystem", "build", "--serial", "--db", "build.db", "-f", "build.llbuild"], cwd=d,
+                               stdout=subprocess.PIPE, stderr=subprocess.STDOUT, timeout=60)
+            ran = open(log).read().split() if os.path.exists(log) else []
+            st = {"step": what, "exit": p.returncode, "ran": ran, "expected_P": expect_p}
+            steps.append(st)
+            want = ["P", "M"] if expect_p else []
+            if p.returncode != 0:
+                failures.append(("history-driver", "build failed (exit %d): %s" % (p.returncode, p.stdout.decode("utf-8", "replace")[-200:]), st))
+            elif ran != want:
+                kind = "not-rerun" if expect_p else "rerun-without-change"
+                failures.append((kind, "%s: executed %s, the property requires %s" % (what, ran, want), st))
+            elif expect_p:
+                # a re-executed producer restores every output it writes
+                for o in outs:
+                    if o != optional and not open(os.path.join(d, o)).read().startswith("object code"):
+                        failures.append(("output-not-restored", "%s: %s does not hold what P produces after a successful build" % (what, o), st))
+        build("initial build", True)
+        build("null build", False)
+        edits = []
+        for o in outs:
+            if o != optional:
+                edits.append(("delete", o))
+                edits.append(("overwrite", o))
+        for o in mutated:
+            if o != optional:
+                edits.append(("modify-in-place", o))
+        if optional:
+            edits.append(("appear", optional))
+        edits += [("null", None), ("input", None), ("definition", None)]
+        edits = rng.shuffle(edits)
+        gen = 0
+        for kind, o in edits:
+            path = os.path.join(d, o) if o else None
+            if kind == "delete":
+                os.remove(path)
+                expect = True                                     # existence changed: mutated or not
+            elif kind == "overwrite":
+                open(path, "w").write("tampered with, and longer than anything the build writes: %s\n" % ("x" * 40))
+                expect = o not in mutated                         # a mutated output is compared by existence only
+            elif kind == "modify-in-place":
+                open(path, "a").write("edited in place\n")
+                expect = False
+            elif kind == "appear":
+                open(path, "w").write("appeared\n")
+                expect = True                                     # recorded as missing, exists now
+            elif kind == "input":
+                gen += 1
+                open(os.path.join(d, "src"), "w").write("object code %s\n" % ("v" * gen))
+                expect = True
+            elif kind == "definition":
+                gen += 1
+                manifest("; echo %d > /dev/null" % gen)
+                expect = True
+            else:
+                expect = False
+            ml = model_line(kind, o) if kind not in ("input", "definition") else None
+            build("%s %s" % (kind, o or ""), expect)
+            steps[-1]["model_line"] = ml
+            if kind == "appear":
+                missing_now.discard(o)         # P re-ran and recorded the file it found
+            if rng.chance(1, 3):
+                build("null build after %s %s" % (kind, o or ""), False)
+        return steps, failures
+
+    def mutated_histories(self, ctx, res, only=None):
+        """Outputs that no longer match what the command produced, with `is-mutated` nodes (ExternalCommand::isResultValid): a
+        command is re-executed iff its definition or an input changed, a NON-mutated output no longer matches (deleted, overwritten,
+        appeared), or a mutated output disappeared / appeared - not when a mutated output was modified in place, and not otherwise."""
+        import shutil
+        from concurrent.futures import ThreadPoolExecutor
+        exe = os.path.join(C.BUILD, "plain", "bin", "llbuild")
+        if not os.path.exists(exe):
+            res.mismatches.append({"stream": "c09mutated", "input": "bin/llbuild not built", "impl": exe})
+            return
+        root = os.path.join(C.BUILD, "scratch", "c09-mut-%d" % os.getpid())
+        shutil.rmtree(root, ignore_errors=True)
+        cfgs = [only] if only else self.mutated_configs(ctx)
+
+        def one(i):
+            cfg = cfgs[i]
+            return self.run_mutated_config(exe, os.path.join(root, "m%d" % i), cfg, C.Rng(ctx.seed, "C09/mutated-outputs/%d" % i))
+        with ThreadPoolExecutor(max_workers=6) as ex:
+            results = list(ex.map(one, range(len(cfgs))))
+        nb, nf = 0, 0
+        # the generated decision chain of ExternalCommand::isResultValid against what the tool did (definition and inputs unchanged)
+        ml = [(st["model_line"], st) for _, (steps, _) in zip(cfgs, results) for st in steps if st.get("model_line") and st["exit"] == 0]
+        if ml:
+            rc, out, err = C.run_lines(self.model_cmd("c09valid"), [l for l, _ in ml])
+            if rc != 0 or len(out) != len(ml):
+                if ctx.model_ok:
+                    res.mismatches.append({"stream": "c09valid", "input": "model driver exit %d" % rc, "model": err[-300:]})
+            else:
+                for (l, st), verdict in zip(ml, out):
+                    impl = "invalid" if "P" in st["ran"] else "valid"
+                    if verdict != impl and sum(1 for m in res.mismatches if m.get("stream") == "c09valid") < 6:
+                        res.mismatches.append({"stream": "c09valid", "input": l, "model": verdict, "impl": "%s (%s: executed %s)" % (impl, st["step"], st["ran"])})
+                d0 = res.distribution
+                d0["result_valid_scans_compared"] = len(ml)
+        for cfg, (steps, failures) in zip(cfgs, results):
+            nb += len(steps)
+            for kind, what, st in failures:
+                nf += 1
+                if sum(1 for o in res.oracle_failures if o.get("family") == "mutated-output") < 8:
+                    res.oracle_failures.append({
+                        "what": "outputs %s, is-mutated %s%s - %s" % (cfg[0], cfg[1], (", %s not produced" % cfg[2]) if cfg[2] else "", what),
+                        "kind": kind, "family": "mutated-output", "tool": "shell", "attribute": st["step"].split(" ")[0],
+                        "input": {"config": [cfg[0], cfg[1], cfg[2]], "step": st, "steps": [s["step"] for s in steps]}})
+        res.evaluations += nb
+        d = res.distribution
+        d["mutated_output_configurations"] = len(cfgs)
+        d["mutated_output_builds"] = nb
+        res.extra["mutated_output_failures"] = nf
+        if not nf:
+            shutil.rmtree(root, ignore_errors=True)
+
     def run_defs(self, ctx, res, lines, tag):
         """two harness processes (different environment and working directory) + the Lean model"""
         import threading
@@ -1158,6 +1344,10 @@ class Check(PropertyCheck):
     def replay(self, ctx, res):
         f = json.load(open(ctx.replay_path)).get("failure", {})
         lines = f.get("input", {}).get("lines") or ([f["input"]["line"]] if "line" in f.get("input", {}) else [])
+        if f.get("family") == "mutated-output":
+            cfg = f.get("input", {}).get("config")
+            self.mutated_histories(ctx, res, only=(cfg[0], cfg[1], cfg[2]) if cfg else None)
+            return
         if f.get("kind") in ("not-rerun", "rerun-without-change", "history-driver"):
             # a two-build history: run them all again; the failing one is reported whatever STRICT_UNSIGNED_ATTRIBUTES says
             self.histories(ctx, res)
@@ -1184,6 +1374,7 @@ class Check(PropertyCheck):
         self.configure_stream(ctx, res)
         self.attr_tables(ctx, res)
         self.histories(ctx, res)
+        self.mutated_histories(ctx, res)
         res.rule = ("every generated base definition (shell / phony tool, through the real BuildFile loader) against every definition that differs "
                     "from it in exactly one attribute, including every move of a boundary between adjacent lists and between adjacent elements; "
                     "each definition's getSignature() computed in two separate processes and by the Lean model (bit-exact). "
@@ -1192,7 +1383,12 @@ class Check(PropertyCheck):
                     "plus order permutations, repeated keys, scalar forms of list attributes, invalid values, unknown keys, wrong value kinds, relative working "
                     "directories: every member the real loader leaves in the command object (signature, inputs, outputs, descriptions, and for the shell tool "
                     "every data member) and every diagnostic against BSAttrs.run on the generated tables; python oracle: equivalent definitions load identically, "
-                    "unsigned keys do not move the signature, shell definitions whose loaded hashed members differ have different signatures.  18 two-build histories through bin/llbuild "
+                    "unsigned keys do not move the signature, shell definitions whose loaded hashed members differ have different signatures.  Stream c09mutated: 18 (thorough: all 536) "
+                    "descriptions with a `nodes:` section declaring output nodes `is-mutated: true` - a producer with 2-4 file outputs in every declaration order and a "
+                    "command-timestamp output, a mutator ordered after it that edits the mutated outputs in place - each driven through a chain of builds of bin/llbuild with "
+                    "every output in turn deleted / overwritten, mutated outputs modified in place, an unproduced output appearing, input and definition edits and null builds: "
+                    "the producer is re-executed iff definition / input changed, a non-mutated output no longer matches or a mutated output disappeared / appeared; every scan also "
+                    "against the generated decision chain of ExternalCommand::isResultValid (c09valid).  18 two-build histories through bin/llbuild "
                     "(one attribute changed between the builds). "
                     "Non-trivial = pairs whose signature-relevant parts differ.")
         res.exhaustive = False
